@@ -51,10 +51,29 @@ type Case struct {
 }
 
 // Gen draws a history.
-func Gen(t *rapid.T) Case {
+func Gen(t *rapid.T) Case { return GenWith(t, GenOpts{}) }
+
+// GenOpts biases Gen.
+type GenOpts struct {
+	// TwoGPUs: always a two-GPU platform
+	TwoGPUs bool
+	// TimingBias: two cases in three run on the timing platform (default: one in four)
+	TimingBias bool
+	// MotifBias: every second queue starts with the kernel - re-upload - kernel motif (default: one in four)
+	MotifBias bool
+}
+
+// GenWith draws a history.
+func GenWith(t *rapid.T, o GenOpts) Case {
 	var c Case
 	c.Spec.Timing = rapid.IntRange(0, 3).Draw(t, "timing") == 0
+	if o.TimingBias {
+		c.Spec.Timing = rapid.IntRange(0, 2).Draw(t, "timing2") > 0
+	}
 	c.Spec.NumGPUs = rapid.SampledFrom([]int{1, 1, 2}).Draw(t, "gpus")
+	if o.TwoGPUs {
+		c.Spec.NumGPUs = 2
+	}
 	if c.Spec.Timing {
 		// (the direct-storage "magic" copy path of timing mode is property C11's subject)
 		c.Spec.GPUType = "r9nano"
@@ -75,7 +94,8 @@ func Gen(t *rapid.T) Case {
 				qu.BufGPU = rapid.IntRange(1, c.Spec.NumGPUs).Draw(t, "bufgpu") // possibly remote memory
 			}
 		}
-		if rapid.IntRange(0, 3).Draw(t, "motif") == 0 {
+		motif := rapid.IntRange(0, 3).Draw(t, "motif")
+		if motif == 0 || (o.MotifBias && motif == 1) {
 			// re-upload motif: a kernel reads a buffer, the host overwrites it, the kernel runs again
 			a := rapid.IntRange(0, c.NBuf-1).Draw(t, "ma")
 			b := (a + 1) % c.NBuf
